@@ -1,5 +1,118 @@
+(* C10 -- property theorems only.  Each is closed by [exact] of a lemma proved in
+   Proofs/C10.v; Print Assumptions beneath each.  The third-party functions (hmac, json,
+   base64: record [oracles]) are universally quantified; their round-trip properties
+   rt_b64 / rt_ser / mac_len are explicit premises where needed. *)
 From Coq Require Import List NArith ZArith Bool.
 Import ListNotations.
-Require Import Verif.Lib.Wire Verif.Gen.Facts_C10 Verif.Model.C10 Verif.Proofs.C10.
-Theorem C10_placeholder : True. Proof. exact placeholder. Qed.
-Print Assumptions C10_placeholder.
+Require Import Verif.Lib.Wire Verif.Gen.Facts_C10 Verif.Model.C10 Verif.Proofs.C10 Verif.Proofs.C10_sat.
+
+(* constants read from session.py: the three comparisons are `>`, the limit is 4064, the payload
+   is (accessed, created, state), each wrapped dict method wraps the dict method of its own name *)
+Theorem C10_facts_ok : facts_check = true.
+Proof. exact facts_ok. Qed.
+Print Assumptions C10_facts_ok.
+
+(* over the wrapper table read from the class body: every method that can change the state is
+   wrapped by manage_changed, every reader by manage_accessed *)
+Theorem C10_every_mutator_marks_dirty : forall m, wrapper_of m = expected_wrapper m.
+Proof. exact every_mutator_marks_dirty. Qed.
+Print Assumptions C10_every_mutator_marks_dirty.
+
+(* semantic form: whichever public operation changes the stored data leaves the session dirty *)
+Theorem C10_mutation_implies_dirty : forall o p t s,
+  st (fst (step o p t s)) <> st s -> dirty (fst (step o p t s)) = true.
+Proof. exact mutation_implies_dirty. Qed.
+Print Assumptions C10_mutation_implies_dirty.
+
+(* an operation list acts on data, time stamp and dirty flag as the declarative fold says:
+   dirty iff it was dirty, or a mutator / changed() ran, or an accessor ran more than
+   reissue_time after the renewal; created, renewed, new are untouched *)
+Theorem C10_ops_refine_spec : forall o l s,
+  spec_ops o (tval (renewed s)) l (st s) (accessed s) (dirty s)
+  = (st (fst (run_ops o l s)), accessed (fst (run_ops o l s)), dirty (fst (run_ops o l s)), snd (run_ops o l s))
+  /\ created (fst (run_ops o l s)) = created s
+  /\ renewed (fst (run_ops o l s)) = renewed s
+  /\ isnew (fst (run_ops o l s)) = isnew s.
+Proof. exact run_ops_spec. Qed.
+Print Assumptions C10_ops_refine_spec.
+
+(* THE property over histories: for every chain of requests, each observation of the model
+   (new?, creation time, data at the start, results, data at the end, cookie set / not / refused)
+   equals the declarative store semantics wherever the property constrains it *)
+Theorem C10_chain_refines_spec : forall O o, rt_b64 O -> rt_ser O -> mac_len O ->
+  forall l last sv, inv O o last sv ->
+  Forall2 ok_at (run_chain O o last l) (spec_chain O o sv true l).
+Proof. exact chain_refines_spec. Qed.
+Print Assumptions C10_chain_refines_spec.
+
+(* the cookie just set, presented before the timeout, restores data and creation time *)
+Theorem C10_persistence : forall O o s exc c now, rt_b64 O -> rt_ser O -> mac_len O ->
+  finish O o s exc = FCookie c ->
+  expired o now (tval (accessed s)) = false ->
+  exists s0, init O o (Some c) now = IOk s0 /\ st s0 = st s /\ tval (created s0) = tval (created s)
+             /\ isnew s0 = false /\ dirty s0 = false /\ tval (renewed s0) = tval (accessed s).
+Proof. exact persistence. Qed.
+Print Assumptions C10_persistence.
+
+(* kept exactly at the timeout, emptied one second later, never raising, never "new" *)
+Theorem C10_timeout_boundary : forall O o s exc c t, rt_b64 O -> rt_ser O -> mac_len O ->
+  finish O o s exc = FCookie c -> timeout o = Some t ->
+  (exists s0, init O o (Some c) (tval (accessed s) + t) = IOk s0 /\ st s0 = st s /\ isnew s0 = false)
+  /\ (exists s0, init O o (Some c) (tval (accessed s) + t + 1) = IOk s0 /\ st s0 = [] /\ isnew s0 = false
+                 /\ tval (created s0) = tval (created s)).
+Proof. exact timeout_boundary. Qed.
+Print Assumptions C10_timeout_boundary.
+
+Theorem C10_cookie_iff_dirty : forall O o s exc,
+  finish O o s exc <> FNone <-> (dirty s = true /\ (soe o = true \/ exc = false)).
+Proof. exact cookie_iff_dirty. Qed.
+Print Assumptions C10_cookie_iff_dirty.
+
+Theorem C10_reissue_boundary : forall o p t s r,
+  op_cls p (st s) = CAcc -> reissue o = Some r ->
+  dirty (fst (step o p t s)) = dirty s || Z.gtb (t - tval (renewed s)) r.
+Proof. exact reissue_boundary. Qed.
+Print Assumptions C10_reissue_boundary.
+
+Theorem C10_created_preserved : forall o l s, created (fst (run_ops o l s)) = created s.
+Proof. exact created_preserved. Qed.
+Print Assumptions C10_created_preserved.
+
+(* every byte string: a new empty session (no exception), or its decoded bytes are
+   mac key payload ++ payload for the session's own key *)
+Theorem C10_tamper_new_empty : forall O o c now,
+  init O o (Some c) now = IOk (fresh_sess now)
+  \/ exists p, unb64 O c = Some (mac O (key o) p ++ p).
+Proof. exact tamper_new_empty. Qed.
+Print Assumptions C10_tamper_new_empty.
+
+Theorem C10_valid_signed_spec : forall O k c, mac_len O ->
+  (valid_signed O k c = true <-> exists p, unb64 O c = Some (mac O k p ++ p)).
+Proof. exact valid_signed_spec. Qed.
+Print Assumptions C10_valid_signed_spec.
+
+(* above the limit: refused, nothing truncated; a cookie that is set is the whole serialisation *)
+Theorem C10_oversize_refused : forall O o s exc,
+  dirty s = true -> (soe o = true \/ exc = false) ->
+  (Z.of_nat (length (cookie_of O o s)) > Z.of_N cookie_limit)%Z ->
+  finish O o s exc = FOversize.
+Proof. exact oversize_refused. Qed.
+Print Assumptions C10_oversize_refused.
+
+Theorem C10_cookie_is_whole : forall O o s exc c,
+  finish O o s exc = FCookie c ->
+  c = cookie_of O o s /\ dirty s = true /\ (soe o = true \/ exc = false)
+  /\ (Z.of_nat (length c) <= Z.of_N cookie_limit)%Z.
+Proof. exact finish_cookie_inv. Qed.
+Print Assumptions C10_cookie_is_whole.
+
+(* the three premises are jointly satisfiable (verified encoder/decoder for the JSON data model),
+   and the chain theorem instantiated there has no premise left *)
+Theorem C10_premises_satisfiable : exists O, rt_b64 O /\ rt_ser O /\ mac_len O.
+Proof. exact premises_satisfiable. Qed.
+Print Assumptions C10_premises_satisfiable.
+
+Theorem C10_chain_refines_spec_instance : forall o l,
+  Forall2 ok_at (run_chain sat_O o None l) (spec_chain sat_O o None true l).
+Proof. exact chain_refines_spec_instance. Qed.
+Print Assumptions C10_chain_refines_spec_instance.
